@@ -3,6 +3,7 @@ import GGV.Run.Excerpt
 import GGV.Run.Config
 import GGV.Run.Grammar
 import GGV.Run.Apf
+import GGV.Run.Tables
 /-! `ggmodel`: one request per line `<id> <suite> <op> <args…>`, one reply per line `<id> <result>`.
     The `apf` suite is stateful (configuration + facts of the packages seen so far). -/
 open GGV.Run
@@ -14,6 +15,7 @@ def dispatch (s : Session) (suite op : String) (args : List String) : Session ×
   | "cfg" => (s, cfgSuite op args)
   | "gram" => (s, gramSuite op args)
   | "apf" => apfSuite s op args
+  | "tables" => (s, tablesSuite op args)
   | _ => (s, "bad-suite")
 
 partial def loop (hin : IO.FS.Stream) (hout : IO.FS.Stream) (s : Session) : IO Unit := do
